@@ -142,7 +142,7 @@ type Event struct {
 	Err      ErrRec    `json:"err"`
 	Calls    []Call    `json:"calls"`
 	OutSlots []OutSlot `json:"outslots"`
-	OutBad   string    `json:"outbad"` // output as a whole not parseable by the independent host parser
+	OutBad   string    `json:"outbad"`   // output as a whole not parseable by the independent host parser
 	LineLens []int     `json:"linelens"` // byte length of every line of the input (lines end at \n)
 }
 
@@ -364,49 +364,62 @@ func render(c Case) ([]byte, []Slot) {
 		k := len(slots) + 1
 		id := "s" + strconv.Itoa(k)
 		s := Slot{Kind: p.Kind, HasType: p.HasType, Type: append(lib.Bytes{}, p.Type...), Payload: append(lib.Bytes{}, p.Payload...),
-			MT: append(lib.Bytes{}, p.MT...), Raw: lib.Bytes{}, Lo: in.Len()}
+			MT: append(lib.Bytes{}, p.MT...), Raw: lib.Bytes{}}
 		typ := ""
 		if p.HasType {
 			typ = ` type="` + string(escAttr(p.Type, "dq")) + `"`
 		}
+		// pre + construct + post: the slot range [Lo,Hi) is the construct alone (the embedded element or the
+		// attribute), not the wrapper that only carries the id
+		var pre, construct, post string
 		switch p.Kind {
 		case "script", "style", "iframe":
 			if containsFold(p.Payload, "</"+p.Kind) || containsFold(p.Payload, "<!--") {
 				lib.Fatal("case %d: payload not representable in <%s>", c.ID, p.Kind)
 			}
-			fmt.Fprintf(&in, "<div id=%s><%s%s>%s</%s></div>", id, p.Kind, typ, p.Payload, p.Kind)
+			pre, post = "<div id="+id+">", "</div>"
+			construct = fmt.Sprintf("<%s%s>%s</%s>", p.Kind, typ, p.Payload, p.Kind)
 		case "svg", "math":
-			fmt.Fprintf(&in, "<div id=%s>%s</div>", id, p.Payload)
+			pre, construct, post = "<div id="+id+">", string(p.Payload), "</div>"
 		case "styleAttr":
-			fmt.Fprintf(&in, "<div id=%s style=%s%s%s>x</div>", id, q(p.Quote), escAttr(p.Payload, p.Quote), q(p.Quote))
+			pre, post = "<div id="+id+" ", ">x</div>"
+			construct = fmt.Sprintf("style=%s%s%s", q(p.Quote), escAttr(p.Payload, p.Quote), q(p.Quote))
 		case "onAttr":
-			fmt.Fprintf(&in, "<div id=%s onclick=%s%s%s>x</div>", id, q(p.Quote), escAttr(p.Payload, p.Quote), q(p.Quote))
+			pre, post = "<div id="+id+" ", ">x</div>"
+			construct = fmt.Sprintf("onclick=%s%s%s", q(p.Quote), escAttr(p.Payload, p.Quote), q(p.Quote))
 		case "dataUriAttr":
 			s.Raw = dataURI(p)
-			fmt.Fprintf(&in, "<img id=%s src=%s%s%s>", id, q(p.Quote), escAttr(s.Raw, p.Quote), q(p.Quote))
+			pre, post = "<img id="+id+" ", ">"
+			construct = fmt.Sprintf("src=%s%s%s", q(p.Quote), escAttr(s.Raw, p.Quote), q(p.Quote))
 		case "svgStyleText":
 			if bytes.ContainsAny(p.Payload, "<&") {
 				lib.Fatal("case %d: svg style text payload with < or &", c.ID)
 			}
-			fmt.Fprintf(&in, `<style id="%s"%s>%s</style>`, id, typ, p.Payload)
+			construct = fmt.Sprintf(`<style id="%s"%s>%s</style>`, id, typ, p.Payload)
 		case "svgStyleCdata":
 			if bytes.Contains(p.Payload, []byte("]]>")) {
 				lib.Fatal("case %d: CDATA payload with ]]>", c.ID)
 			}
-			fmt.Fprintf(&in, `<style id="%s"%s><![CDATA[%s]]></style>`, id, typ, p.Payload)
+			construct = fmt.Sprintf(`<style id="%s"%s><![CDATA[%s]]></style>`, id, typ, p.Payload)
 		case "svgStyleAttr":
-			fmt.Fprintf(&in, `<rect id="%s" style=%s%s%s/>`, id, q(p.Quote), escAttrX(p.Payload, p.Quote, true), q(p.Quote))
+			pre, post = `<rect id="`+id+`" `, "/>"
+			construct = fmt.Sprintf(`style=%s%s%s`, q(p.Quote), escAttrX(p.Payload, p.Quote, true), q(p.Quote))
 		case "cssDataUri":
 			s.Raw = dataURI(p)
 			qq := q(p.Quote)
 			if p.Quote == "none" {
 				qq = ""
 			}
-			fmt.Fprintf(&in, ".%s{background:url(%s%s%s)}", id, qq, s.Raw, qq)
+			pre, post = "."+id+"{background:", "}"
+			construct = fmt.Sprintf("url(%s%s%s)", qq, s.Raw, qq)
 		default:
 			lib.Fatal("case %d: unknown slot kind %q", c.ID, p.Kind)
 		}
+		in.WriteString(pre)
+		s.Lo = in.Len()
+		in.WriteString(construct)
 		s.Hi = in.Len()
+		in.WriteString(post)
 		slots = append(slots, s)
 	}
 	if c.Host == "svg" {
